@@ -122,8 +122,19 @@ def run(chk):
                 "default, 3-way and boolean comparators; non-trivial = input with >= 2 keys that is "
                 "not already in order or contains a tie")
     # ---- machine T: tables + order laws on all triples ------------------------------------
-    rT = tlc.run("Order", "Order_T.cfg")
-    chk.add_tlc("Order_T", rT)
+    # where do names without a namespace go?  The property is silent: both conventions are specified (and both
+    # proved to be total orders by TLC); the implementation's convention is read off one probe pair
+    from basilisp.lang import keyword as _kw
+    probe = _call(core["compare"], _kw.keyword("a"), _kw.keyword("a", ns="a"))
+    suffix = "" if probe == -1 else "_nl"
+    chk.extra["names_without_namespace_sort"] = "first" if probe == -1 else "last"
+    for other in (["_nl"] if suffix == "" else [""]):
+        ro = tlc.run("Order", "Order_T%s.cfg" % other)
+        chk.add_tlc("Order_T%s (other convention, laws only)" % other, ro)
+        if ro.violated or not ro.ok:
+            chk.machinery("Order_T%s: order laws fail: %s" % (other, ro.violated))
+    rT = tlc.run("Order", "Order_T%s.cfg" % suffix)
+    chk.add_tlc("Order_T" + suffix, rT)
     if rT.violated or not rT.ok:
         chk.machinery("Order_T: specification's own order laws fail: %s" % rT.violated)
         return
@@ -149,7 +160,7 @@ def run(chk):
                                         module="Order", direction="spec->code")
         chk.sample({"family": fam, "row1": byi[1]})
     # ---- machine S: sort behaviours --------------------------------------------------------
-    cfg = "Order_Sq.cfg" if chk.tier == "quick" else "Order_St.cfg"
+    cfg = ("Order_Sq%s.cfg" if chk.tier == "quick" else "Order_St%s.cfg") % suffix
     rS = tlc.run("Order", cfg, timeout=3000)
     chk.add_tlc(cfg, rS)
     if rS.violated or not rS.ok:
